@@ -154,6 +154,12 @@ theorem ask_spec (cfg : Cfg) (v : View) (r : Req) :
   all_goals (try (rename_i h; simp [raisedExn] at h))
 
 
+theorem askHook_spec (cfg : Cfg) (v : View) (r : Req) :
+    ⦃fun w => ⌜view cfg w = v⌝⦄ askHook r
+    ⦃post⟨fun a w => ⌜view cfg w = obs cfg v r a ∧ raisedExn a = none⌝,
+          fun e w => ⌜view cfg w = obs cfg v r (.raise e 0)⌝⟩⦄ :=
+  askHook_triple r (ask_spec cfg v r) (fun w h => presil_cases (fun w => view cfg w = v) w (fun _ => h))
+
 @[simp] theorem isRaise_eq (a : Ans) : isRaise a = (raisedExn a).isSome := by
   cases a <;> rfl
 
@@ -253,7 +259,7 @@ theorem callAttemptEndFromOutcome_spec (a : Nat) (o : AOutcome) :
 theorem callBeforeSleep_spec (ctx : BackoffCtx) (sl : Nat) :
     ⦃fun w => ⌜view cfg w = v⌝⦄ callBeforeSleep cfg ctx sl
     ⦃post⟨fun _ w => ⌜view cfg w = v⌝, fun e _ => ⌜e.isException = false⌝⟩⦄ := by
-  mvcgen [callBeforeSleep, swallowException, ask_spec]
+  mvcgen [callBeforeSleep, swallowException, askHook_spec]
   leaf_close
 
 theorem budgetConsume_spec :
@@ -314,14 +320,14 @@ theorem askMetric_spec (ev : Event) (a sl : Nat) (tags : Tags) :
     ⦃fun w => ⌜view cfg w = v⌝⦄ askMetric ev a sl tags
     ⦃post⟨fun _ w => ⌜view cfg w = { v with mon := onMetric cfg v.mon ev a sl tags }⌝,
           fun _ w => ⌜view cfg w = { v with mon := onMetric cfg v.mon ev a sl tags }⌝⟩⦄ := by
-  mvcgen [askMetric, ask_spec]
+  mvcgen [askMetric, askHook_spec]
   leaf_close
 
 theorem askLog_spec (ev : Event) (a sl : Nat) (tags : Tags) (ra : Option Int) :
     ⦃fun w => ⌜view cfg w = v⌝⦄ askLog ev a sl tags ra
     ⦃post⟨fun _ w => ⌜view cfg w = { v with mon := onLog cfg v.mon ev a sl tags }⌝,
           fun _ w => ⌜view cfg w = { v with mon := onLog cfg v.mon ev a sl tags }⌝⟩⦄ := by
-  mvcgen [askLog, ask_spec]
+  mvcgen [askLog, askHook_spec]
   leaf_close
 
 /-- the tag dictionary `emit` builds -/
